@@ -180,10 +180,14 @@ Global Arguments detour_enter : simpl never.
 Global Arguments detour_exit : simpl never.
 Global Arguments dyn_enter : simpl never.
 Global Arguments dyn_exit : simpl never.
-Global Arguments dyng_enter : simpl never.
-Global Arguments dyng_exit : simpl never.
 Global Arguments loadtypes_enter : simpl never.
 Global Arguments loadtypes_exit : simpl never.
+Global Arguments dynamic_evaluate_enter : simpl never.
+Global Arguments dynamic_evaluate_exit : simpl never.
+Global Arguments load_types_enter : simpl never.
+Global Arguments load_types_exit : simpl never.
+Global Arguments get_dynamic_evaluate_fn : simpl never.
+Global Arguments contextual_scope_enter : simpl never.
 Global Arguments get_context : simpl never.
 Global Arguments get_permission : simpl never.
 Global Arguments thread_local_kwargs : simpl never.
